@@ -145,15 +145,16 @@ func (v *DataModelView) DrawRelation(
 			if typeRef.GetRef().GetAppname().GetPart() != nil {
 				targetApp = syslutil.JoinAppName(typeRef.GetRef().GetAppname())
 			}
-			s = fmt.Sprintf("+ %s : **%s.%s** <<FK>>\n",
-				attrName,
-				typeRef.GetRef().Path[0],
-				typeRef.GetRef().Path[1])
-			if viewParam.Types[targetApp+"."+typeRef.GetRef().Path[0]] == nil {
+			// <table>.<column>: the last element of the path is the column, the elements before it name the table
+			// (several elements for a nested type, Outer.Inner)
+			path := typeRef.GetRef().GetPath()
+			targetTable := syslutil.JoinTypePath(path[:len(path)-1])
+			s = fmt.Sprintf("+ %s : **%s.%s** <<FK>>\n", attrName, targetTable, path[len(path)-1])
+			if viewParam.Types[targetApp+"."+targetTable] == nil {
 				v.StringBuilder.WriteString(s)
 				continue
 			}
-			targetEntity := v.UniqueVarForAppName(targetApp, typeRef.GetRef().Path[0])
+			targetEntity := v.UniqueVarForAppName(targetApp, targetTable)
 			if _, exists := relationshipMap[encEntity]; !exists {
 				relationshipMap[encEntity] = map[string]RelationshipParam{}
 			}
@@ -298,11 +299,8 @@ func (v *DataModelView) DrawTuple(
 				continue
 			}
 			if !isPrimitiveList {
-				typeName := path[0]
-				if len(path) > 1 {
-					appName = path[0]
-					typeName = path[1]
-				}
+				// the whole path is the name of the type: several elements name a nested type (Outer.Inner)
+				typeName := syslutil.JoinTypePath(path)
 				// typeName alone is looked up only when there is no application to qualify it with: with one, the
 				// relationship is drawn to the alias of appName.typeName, and that must be a type of the model
 				if viewParam.Types[appName+"."+typeName] == nil && (appName != "" || viewParam.Types[typeName] == nil) {
